@@ -97,6 +97,11 @@ CANARIES = [
     ('c17-fallback-swallow-off', 'C17', 'mindsdb_sql/render/sqlalchemy_render.py', "            if not with_failback:\n                raise e\n", "            if not with_failback and isinstance(e, SQLAlchemyError):\n                raise e\n", 'C17.fallback.NotImplementedError'),
     ('c17-new-valueerror', 'C17', 'mindsdb_sql/render/sqlalchemy_render.py', "            raise NotImplementedError('Only one table is supported')", "            raise ValueError('Only one table is supported')", 'C17.raise.stmt.prepare_drop_table'),
     ('c17-mutate-alias', 'C17', 'mindsdb_sql/render/sqlalchemy_render.py', "        if alias is None or len(alias.parts) == 0:\n            return None", "        if alias is None or len(alias.parts) == 0:\n            return None\n        alias.parentheses = False", 'C17.frame.get_alias'),
+    ('c20-cache-parsers', 'C20', 'mindsdb_sql/__init__.py', "def get_lexer_parser(dialect):\n    if dialect == 'sqlite':",
+     "_CACHE = {}\n\n\ndef get_lexer_parser(dialect):\n    if dialect in _CACHE:\n        return _CACHE[dialect]\n    _CACHE[dialect] = _get_lexer_parser(dialect)\n    return _CACHE[dialect]\n\n\ndef _get_lexer_parser(dialect):\n    if dialect == 'sqlite':", 'C20.'),
+    ('c20-module-level-parser', 'C20', 'mindsdb_sql/__init__.py', "        lexer, parser = MindsDBLexer(), MindsDBParser()\n", "        lexer, parser = MindsDBLexer(), _shared_parser(MindsDBParser)\n",
+     'C20.fresh.get_lexer_parser.mindsdb'),
+    ('c20-global-counter', 'C20', 'mindsdb_sql/planner/query_planner.py', "class QueryPlanner:\n", "PLANNED = []\n\n\nclass QueryPlanner:\n    def _note(self, q):\n        PLANNED.append(q)\n", 'C20.globals'),
 ]
 
 
@@ -111,7 +116,10 @@ def run_one(c, tier='quick'):
         s = open(p).read()
         if old not in s:
             return cid, 'STALE', 'anchor text not found (source changed): canary needs review'
-        open(p, 'w').write(s.replace(old, new, 1))
+        s = s.replace(old, new, 1)
+        if cid == 'c20-module-level-parser':
+            s += "\n\n_SHARED = {}\n\n\ndef _shared_parser(cls):\n    if cls not in _SHARED:\n        _SHARED[cls] = cls()\n    return _SHARED[cls]\n"
+        open(p, 'w').write(s)
         env = dict(os.environ, REPO_ROOT=tmp, PYTHONDONTWRITEBYTECODE='1', VERIF_SELFTEST='1', VERIF_OUT=os.path.join(tmp, 'out'))
         r = subprocess.run([os.path.join(VERIF, '.venv/bin/python'), '-m', 'vlib.cli', prop, '--tier', tier], cwd=VERIF, env=env,
                            capture_output=True, text=True, timeout=3000)
